@@ -200,6 +200,7 @@ type dslPrintObs struct {
 	Proto       printResult     `json:"proto"`     // TransformJSONProtoToDSL
 	ProtoSrc    printResult     `json:"proto_src"` // ... WithIncludeSourceInformation(true)
 	JSON        printResult     `json:"json"`      // TransformJSONStringToDSL
+	ProtoShared printResult     `json:"proto_shared"` // TransformJSONProtoToDSL on the same model with structurally equal rewrite subtrees shared (one message value)
 	Variants    []string        `json:"variants"`  // distinct plain outputs over key orders / type orders / repetitions
 	VariantsSrc []string        `json:"variants_src"`
 	NVariants   int             `json:"nvariants"`
@@ -255,6 +256,10 @@ func dslPrint(args []string) error {
 		obs.ProtoSrc = guard(func() (string, error) {
 			return transformer.TransformJSONProtoToDSL(model, transformer.WithIncludeSourceInformation(true))
 		})
+		sharedAbs := *inp.M
+		sharedAbs.SharedNodes = true
+		sharedModel := protoModel(&sharedAbs)
+		obs.ProtoShared = guard(func() (string, error) { return transformer.TransformJSONProtoToDSL(sharedModel) })
 		obs.Unchanged = proto.Equal(before, model)
 		for i, td := range model.GetTypeDefinitions() {
 			if i >= len(beforeSlice) || beforeSlice[i] != td {
@@ -337,6 +342,21 @@ func dslPrint(args []string) error {
 				for _, td := range pm.GetTypeDefinitions() {
 					if td.GetMetadata() == nil {
 						td.Metadata = &openfgav1.Metadata{}
+					}
+				}
+				if b, err := protojson.Marshal(pm); err == nil {
+					doc = shuffleJSON(b, rng)
+				}
+			}
+			// the way API clients write models: a relation without a direct assignment (and without attribution) has no entry under
+			// metadata.relations at all (every third variant) - absent and empty metadata are the same content
+			if v%3 == 2 {
+				for _, td := range pm.GetTypeDefinitions() {
+					for name, rw := range td.GetRelations() {
+						md := td.GetMetadata().GetRelations()[name]
+						if md != nil && !isAssignable(rw) && md.GetModule() == "" && md.GetSourceInfo().GetFile() == "" {
+							delete(td.Metadata.Relations, name)
+						}
 					}
 				}
 				if b, err := protojson.Marshal(pm); err == nil {
